@@ -29,8 +29,9 @@ OWNED = {
     "C01": {"sm_behaviour", "exception", "hang"}, "C02": {"sm_behaviour", "exception", "hang"},
     "C03": {"sm_behaviour", "exception", "hang"}, "C04": {"sm_behaviour", "exception", "hang"},
     "C13": {"sm_behaviour", "exception", "hang"}, "C15": {"sm_behaviour", "exception", "hang"},
+    "C19": {"exception", "hang"},
 }
-INTEGRATION = ("C01", "C02", "C03", "C04", "C13", "C15")
+INTEGRATION = ("C01", "C02", "C03", "C04", "C13", "C15", "C19")
 
 HINTS = {
     "int": ("int", "int", [0, 1, -3, 7, 2**40, 12]),
@@ -339,10 +340,54 @@ def generate_integration(seed, prop, tier, index=0):
                         on = not on
                     if on:
                         add(src, v, ["engage", owner])
+    if cfg["fms"] and rng.random() < 0.6:
+        # with the FMS attached other callbacks may raise around the machine (swallowed): it must not notice
+        fs = [s for s in per["execute"] + per["lifecycle"] + per["init"] + per["periodic"] if not s.startswith(owner + ".")]
+        if owner in [c["name"] for c in comps] and "on_enable" in [c for c in comps if c["name"] == owner][0]["hooks"]:
+            fs.append(f"{owner}.on_enable")
+        for _ in range(rng.choice([1, 2])):
+            if fs:
+                add(rng.choice(fs), rng.choice([1, 2, rng.randint(1, 12), "*"]), ["raise"])
     return {"engine": ENGINE, "property": prop, "seed": seed, "config": cfg, "ops": ops, "integration": True}
 
 
+def generate_c19(seed, tier, index=0):
+    """The robot's loop watchdog under the real mode loops: every loop overruns, so the rate limit of the overrun
+    warning is what keeps the console quiet - in every mode and across mode changes."""
+    rng = random.Random(seed ^ 0xC19)
+    dyadic = rng.random() < 0.5
+    period = (rng.choice([1, 2]) / 64.0) if dyadic else rng.choice([0.02, 0.01, 0.05])
+    comps = [{"name": f"c{i}", "hooks": [h for h in ("setup", "on_enable", "on_disable") if rng.random() < 0.5], "resets": [], "plain_attrs": [],
+              "feedbacks": [], "inject_dep": False, "inject_comp": None, "in_base_robot": False} for i in range(rng.choice([1, 2, 3]))]
+    modes = [{"module": "m0", "cls": "Mode0", "name": "Plain0", "default": True, "kind": "plain"}] if rng.random() < 0.7 else []
+    cap = rng.choice([60, 100, 150] if tier == "quick" else [80, 150, 250])
+    cfg = {"dyadic": dyadic, "period": period, "use_teleop_in_auto": rng.random() < 0.3, "fms": False, "components": comps,
+           "robot_feedbacks": [], "modes": modes, "split_robot": False, "auto_selector_initial": None, "cap_waits": cap,
+           "boot_us": (rng.choice([0, 64, 6400]) * GRID_US) if dyadic else rng.choice([0, 181546, 5_000_003])}
+    p_us = period_us(cfg)
+    ops = []
+
+    def add(site, visit, *acts):
+        ops.append({"site": site, "visit": visit, "acts": [list(a) for a in acts]})
+
+    k = 0
+    add("wait", 1, ["ds", 1, rng.choice(["teleop", "auto", "test"]), None])
+    while k < cap:
+        k += rng.choice([3, 10, 25, 40])
+        if k < cap:
+            add("wait", k, _rand_ds(rng))
+    # a callback that is slower than the loop period, every time
+    slow = rng.choice(["robot.robotPeriodic", "robot.robotPeriodic", comps[0]["name"] + ".execute", "robot.teleopPeriodic", "robot.disabledPeriodic"])
+    over = rng.choice([p_us + (GRID_US if dyadic else 1000), 2 * p_us, p_us // 2 + p_us])
+    add(slow, "*", ["stall", int(over)])
+    add("robot.robotPeriodic", "*", ["stall", int(over if slow != "robot.robotPeriodic" else 0)]) if rng.random() < 0.5 and slow != "robot.robotPeriodic" else None
+    return {"engine": ENGINE, "property": "C19", "seed": seed, "config": cfg, "ops": ops, "integration": True}
+
+
+
 def generate(seed, prop, tier, index=0):
+    if prop == "C19":
+        return generate_c19(seed, tier, index)
     if prop in INTEGRATION:
         return generate_integration(seed, prop, tier, index)
     if prop == "C07":
@@ -1092,6 +1137,13 @@ def execute(plan, trace=False):
                             raise Violation(prop, "model.feedback_type", f"topic {key} has type {t.getTypeString()!r}, expected {want!r}", sig=f"{prop}:model.feedback_type")
                 if prop not in INTEGRATION:
                     robot_invariants.check(prop, cfg, ops, ilog, ioutcome)
+                if prop == "C19":
+                    last = {}
+                    for t, wid in sim.wd_warnings:
+                        if wid in last and t - last[wid] < 1_000_000:
+                            raise Violation(prop, "watchdog.rate_in_robot_loop", f"the robot's loop watchdog logged two overrun warnings {t - last[wid]} us apart (at {last[wid]} and {t} us)",
+                                            sig=f"{prop}:watchdog.rate_in_robot_loop")
+                        last[wid] = t
         except Violation as v:
             status, violation = "violation", v.to_json()
         probes, shape, states, trans = _coverage(cfg, model, mlog, moutcome, ops)
@@ -1125,6 +1177,17 @@ def execute(plan, trace=False):
         res = finish()
         world.EMIT(res)
 
+    import logging as _logging
+
+    class _WdCapture(_logging.Handler):
+        def emit(self, record):
+            if record.levelno >= _logging.WARNING:
+                wd = getattr(sim.robot, "watchdog", None) if sim.robot is not None else None
+                sim.wd_warnings.append([world.now_us(), id(wd)])
+
+    sim.wd_warnings = []
+    _wdh = _WdCapture(level=_logging.DEBUG)
+    _logging.getLogger("simple_watchdog").addHandler(_wdh)
     sim.emit = emit_and_exit
     sim.real_wait = hal.waitForNotifierAlarm
     hal.waitForNotifierAlarm = sim.wait_seam
@@ -1226,6 +1289,8 @@ def _coverage(cfg, model, mlog, moutcome, ops):
 
 def _nontrivial(prop, cfg, p, model):
     modes = {m for m, it in model.sessions if it > 0}
+    if prop == "C19":
+        return p.get("iterations", 0) >= 50
     if prop in INTEGRATION:
         return model.sm_calls >= 3 and (model.sm_stops >= 1 or prop == "C15")
     if prop == "C05":
